@@ -31,9 +31,11 @@ LEVEL = "exploration"
 MONITORS = []
 ANCHORS = ["modules/filter.py"]
 RULE = ("one case = (domain size, print axis, sign, nsampling[, repetition]); all sizes up to the tier bound are "
-        "enumerated (quick: 2D<=6x6, 3D<=4^3; thorough: 2D<=10x10, 3D<=6^3, two repetitions, plus random larger "
-        "domains up to 24x24 / 10^3); inside a case all spellings of the direction, 3-6 parameter sets "
-        "(default, random, corner eps/xi_0/p) and 12 design families are run; distinct = distinct "
+        "enumerated (quick: 2D<=6x6, 3D<=5^3; thorough: 2D<=12x12, 3D<=6^3, three repetitions with different random "
+        "parts, plus 400 random larger domains up to 24x24 / 10^3); inside a case 8 spellings of the direction (both "
+        "canonical strings, 2 other strings, 4 vector forms; every mapped direction of the metamorphic relations in "
+        "a random spelling), 4-6 parameter sets (default, random, corner eps/xi_0/p) and 12 design families are run; "
+        "distinct = distinct "
         "(size, direction, nsampling); non-trivial = at least two layers in the print direction")
 EXHAUSTIVE = {"quick": True, "thorough": True}
 ASSUMPTIONS = [
@@ -57,10 +59,10 @@ ASSUMPTIONS = [
     "y <= sqrt(eps)/2 + ns^(1/Q)*(m+shift)^(p/Q) + rounding with m the largest printed support",
 ]
 FLOORS = {
-    "quick": {"cases_held": 450, "distinct_nontrivial": 350, "modules_built": 25000, "string_forms_checked": 6000,
-              "vector_forms_checked": 9000, "elements_local_checked": 800000, "elements_global_checked": 800000,
-              "base_elements_checked": 300000, "overshoot_checked": 1000000, "solid_checked": 60000,
-              "unsupported_checked": 40000, "mirror_relations": 3500, "swap_relations": 3000},
+    "quick": {"cases_held": 820, "distinct_nontrivial": 660, "modules_built": 23000, "string_forms_checked": 12000,
+              "vector_forms_checked": 11000, "elements_local_checked": 800000, "elements_global_checked": 800000,
+              "base_elements_checked": 400000, "overshoot_checked": 1200000, "solid_checked": 80000,
+              "unsupported_checked": 14000, "mirror_relations": 21000, "swap_relations": 20000},
     "thorough": {"cases_held": 3000, "distinct_nontrivial": 1400, "modules_built": 150000,
                  "string_forms_checked": 40000, "vector_forms_checked": 60000, "elements_local_checked": 2.0e7,
                  "elements_global_checked": 2.0e7, "base_elements_checked": 4.0e6, "overshoot_checked": 2.5e7,
@@ -79,9 +81,9 @@ DESIGNS = ["rand", "binary", "noisybin", "zeros", "ones", "xi0", "column", "brid
 def plan(tier, seed):
     cases = []
     if tier == "quick":
-        b2, b3, reps = 6, 4, 1
+        b2, b3, reps = 6, 5, 1
     else:
-        b2, b3, reps = 10, 6, 2
+        b2, b3, reps = 12, 6, 3
     for rep in range(reps):
         for nx, ny in itertools.product(range(1, b2 + 1), repeat=2):
             for ax in (0, 1):
@@ -95,7 +97,7 @@ def plan(tier, seed):
     if tier == "thorough":
         # random larger domains (cheap variant of a case: no enumeration of spellings)
         rng = np.random.default_rng([int(seed) & 0xFFFFFFFF, 1414])
-        for i in range(240):
+        for i in range(400):
             if i % 2 == 0:
                 n = [int(rng.integers(7, 25)), int(rng.integers(7, 25)), 0]
                 ax, ns = int(rng.integers(0, 2)), 3
@@ -215,12 +217,14 @@ def spellings(dim, ax, sg, rng):
 
 
 def check_direction(m, dim, ax, sg, kind, value):
+    """the stored direction names the requested axis and sign (its length is not part of the property)"""
     try:
         d = np.asarray(m.direction, dtype=float).ravel()
     except Exception:
-        raise Violation("direction/not-a-unit-axis-vector", requested=value, got=repr(getattr(m, "direction", None)))
-    if not (dim <= d.size <= 3 and np.all(np.isfinite(d))):
-        raise Violation("direction/not-a-unit-axis-vector", requested=value, got=d)
+        raise Violation("direction/attribute-is-not-an-axis-vector", requested=value,
+                        got=repr(getattr(m, "direction", None)))
+    if not (dim <= d.size <= 3 and np.all(np.isfinite(d)) and np.any(d != 0)):
+        raise Violation("direction/attribute-is-not-an-axis-vector", requested=value, got=d)
     d = np.pad(d, (0, 3 - d.size))
     want = np.zeros(3)
     want[ax] = sg
@@ -228,8 +232,8 @@ def check_direction(m, dim, ax, sg, kind, value):
         raise Violation(f"direction/{kind}-axis-wrong", requested=value, got=d, want=want)
     if np.sign(d[ax]) != sg:
         raise Violation(f"direction/{kind}-sign-wrong", requested=value, got=d, want=want)
-    if np.max(np.abs(d - want)) > 1e-12:
-        raise Violation("direction/not-a-unit-axis-vector", requested=value, got=d, want=want)
+    if np.max(np.abs(d / abs(d[ax]) - want)) > 1e-12:
+        raise Violation("direction/attribute-is-not-an-axis-vector", requested=value, got=d, want=want)
 
 
 # --------------------------------------------------------------------------------------------- designs
@@ -300,8 +304,8 @@ def make_design(name, rng, n3, ax, sg, xi0):
 def check_output(ctx, y, x, n3, ax, sg, mod, info):
     """all clauses that concern one evaluation; returns (Y[i,j,k], propagated rounding bound)"""
     nel = n3[0] * n3[1] * n3[2]
-    if not (isinstance(y, np.ndarray) and y.shape == (nel,) and y.dtype == np.float64):
-        raise Violation("output/not-a-float64-vector-of-element-size", got=repr(type(y)), shape=np.shape(y), **info)
+    if not (isinstance(y, np.ndarray) and y.shape == (nel,) and np.issubdtype(y.dtype, np.floating)):
+        raise Violation("output/not-a-real-vector-of-element-size", got=repr(type(y)), shape=np.shape(y), **info)
     require(bool(np.all(np.isfinite(y))), "output/non-finite", **info)
     X = orient(to3d(x, n3), ax, sg)
     Y = orient(to3d(y, n3), ax, sg)
@@ -319,8 +323,8 @@ def check_output(ctx, y, x, n3, ax, sg, mod, info):
         yl, s, tol = mod.step(X[L], Y[L - 1])
         err = np.abs(Y[L] - yl)
         ctx.count("elements_local_checked", m1 * m2)
-        if np.any(err > tol):
-            a, b = np.unravel_index(int(np.argmax(err - tol)), err.shape)
+        if not np.all(err <= tol):  # (written so that a non-finite reference value cannot pass)
+            a, b = np.argwhere(~(err <= tol))[0]
             raise Violation("recursion/element-is-not-smin-of-own-density-and-smax-of-supports",
                             layer=L, position=[int(a), int(b)], got=float(Y[L, a, b]), want=float(yl[a, b]),
                             x=float(X[L, a, b]), smax_of_supports=float(s[a, b]), tol=float(tol[a, b]),
@@ -341,8 +345,8 @@ def check_output(ctx, y, x, n3, ax, sg, mod, info):
             break
         ctx.count("elements_global_checked", m1 * m2)
         err = np.abs(Y[L] - Yr)
-        if np.any(err > E):
-            a, b = np.unravel_index(int(np.argmax(err)), err.shape)
+        if not np.all(err <= E):
+            a, b = np.argwhere(~(err <= E))[0]
             raise Violation("recursion/differs-from-layerwise-reference", layer=L, position=[int(a), int(b)],
                             got=float(Y[L, a, b]), want=float(Yr[a, b]), bound=E, **info)
     if not judged:
@@ -354,8 +358,8 @@ def check_output(ctx, y, x, n3, ax, sg, mod, info):
     over = Y - X
     ctx.count("overshoot_checked", Y.size)
     lim = mod.sq / 2 + 32 * U * (1 + S_any + mod.sq)
-    if np.any(over > lim):
-        L, a, b = np.unravel_index(int(np.argmax(over)), over.shape)
+    if not np.all(over <= lim):
+        L, a, b = np.argwhere(~(over <= lim))[0]
         raise Violation("bound/overshoot-exceeds-half-sqrt-eps", layer=int(L), position=[int(a), int(b)],
                         x=float(X[L, a, b]), y=float(Y[L, a, b]), allowed=mod.sq / 2, **info)
 
@@ -370,7 +374,7 @@ def check_output(ctx, y, x, n3, ax, sg, mod, info):
         ns_ = int(np.count_nonzero(solid))
         if ns_:
             ctx.count("solid_checked", ns_)
-            bad = solid & (Y[L] < 1.0 - tol_solid)
+            bad = solid & ~(Y[L] >= 1.0 - tol_solid)
             if np.any(bad):
                 a, b = np.argwhere(bad)[0]
                 raise Violation("bound/fully-supported-solid-not-kept", layer=L, position=[int(a), int(b)],
@@ -382,7 +386,7 @@ def check_output(ctx, y, x, n3, ax, sg, mod, info):
             bound = mod.sq / 2 + Sv + mod.scalar_tol(float(np.max(Sv[void])))
             ctx.count("unsupported_checked", int(np.count_nonzero(void & (X[L] >= 0.5))))
             ctx.count("void_supported_checked", int(np.count_nonzero(void)))
-            bad = void & (Y[L] > bound)
+            bad = void & ~(Y[L] <= bound)
             if np.any(bad):
                 a, b = np.argwhere(bad)[0]
                 raise Violation("bound/unsupported-material-not-removed", layer=L, position=[int(a), int(b)],
@@ -411,8 +415,20 @@ def draw_params(rng, ns, which):
     return 0.5, 40.0, 1e-4  # pragma: no cover
 
 
+def _prime_inspect_cache():
+    """Speed only: every Signal/Module constructor of pyMOTO calls inspect.stack(); for the two '<frozen runpy>'
+    frames of a `python -m pmv.shard` process inspect.getmodule() re-scans all of sys.modules on every call
+    (3x the cost of a case).  Telling the standard library's cache which module that pseudo-file belongs to
+    changes nothing that pyMOTO can observe (it only reads file names and line numbers of the frames)."""
+    import inspect
+    import runpy  # noqa: F401
+    if "<frozen runpy>" not in inspect.modulesbyfile:
+        inspect.modulesbyfile["<frozen runpy>"] = "runpy"
+
+
 def run_case(case, ctx):
     import pymoto as pym
+    _prime_inspect_cache()
     n = list(case["n"])
     ax, sg, ns, rep = int(case["ax"]), int(case["sg"]), int(case["ns"]), int(case["rep"])
     big = bool(case.get("big"))
